@@ -138,7 +138,7 @@ shutil.rmtree(d, True)
 
 def run(rep, tier, only=None):
     root = snapshot.activate()
-    T = 300 if tier == 'quick' else 1800
+    T = 600 if tier == 'quick' else 1800
     rep.functions += ['Cython/Build/Dependencies.py: DependencyTree.transitive_merge, transitive_merge_helper (real _transitive_cache), all_dependencies, '
                       'immediate_dependencies, newest_dependency, extract_timestamp; cythonize(): the rebuild decision statements (AST slice)']
     rep.bounds += ['3 files: every graph (9 symbolic edges incl. self loops), every sequence of 3 queries on one tree (cache reuse), 3 timestamp orders',
